@@ -316,4 +316,6 @@ def run(prog: Program, col: Collector, tier: str, refs: Optional[Refs] = None, c
     kernels.r_unit_axis_padding(prog, col, refs, cat, "R03.18")
     kernels.r_index_padding_count(prog, col, refs, cat, "R03.19")
     algebra.r_receiver_narrowed_reduce(prog, col, refs, cat, "R03.20")
+    col.rule("R03.21", "a rebuilt node is substituted only at the names that are fresh in the node itself (shared with C04 R04.17)", floor=1)
+    c04._fresh_of_original_node(prog, col, refs, cat)
     return col
